@@ -408,7 +408,8 @@ pub fn plan_lifecycle_lp(w: &World, knobs: &Knobs, actor: &mut Actor, l: &Ledger
                         position_bundle_authority: actor.wallet,
                         receiver: actor.wallet,
                     },
-                    wi::CloseBundledPosition { bundle_index: index },
+                    // one time in six the index named is that of ANOTHER open slot of the bundle (the account is this slot's)
+                    wi::CloseBundledPosition { bundle_index: if set.len() >= 2 && rng.chance(1, 6) { *set.iter().find(|j| **j != index).unwrap() } else { index } },
                 )),
                 "close_bundled_position".into(),
             ));
